@@ -60,6 +60,11 @@ def asyncQWorld : Gen.QueueWorld QSt where
     | _, _ => (.halted, w)
   sockSendTo _ := Gen.M.halt
   sockDriverPending w := (.ok (), w)
+  qEmplace := Gen.M.halt
+  lock := Gen.M.halt
+  unlock := Gen.M.halt
+  driverLock := Gen.M.halt
+  driverAsyncWantSend := Gen.M.halt
 
 /-! the fields, one equation each -/
 section
@@ -137,6 +142,53 @@ def tqWorld : Gen.QueueWorld TQSt where
     | _ :: _, some .fail => (.thrown ⟨.system_error, 0⟩, { w with ans := none })
     | _, _ => (.halted, w)
   sockDriverPending := Gen.M.halt
+  qEmplace := Gen.M.halt
+  lock := Gen.M.halt
+  unlock := Gen.M.halt
+  driverLock := Gen.M.halt
+  driverAsyncWantSend := Gen.M.halt
+
+/-! ### the enqueue side (TCP): `Send` on producer thread `t` with promise `id` and buffer `bytes`
+
+`sendQMtx` is a flag: the queue may only be looked at (`qEmpty`) and changed (`qEmplace` = the model's `enq` action)
+while it is held, `lock` of a held mutex and `unlock` of a free one halt; `driverAsyncWantSend` is the model's `arm`
+action of that thread (it takes the driver's `stepMtx`, so it must not happen under `sendQMtx`: it halts if held). -/
+structure EnqSt where
+  s : AsyncQ.St
+  t : Nat
+  id : Nat
+  bytes : AsyncQ.Bytes
+  held : Bool
+
+open AsyncQ in
+def enqWorld : Gen.QueueWorld EnqSt where
+  qSize := Gen.M.halt
+  qEmpty w := if w.held then (.ok w.s.q.isEmpty, w) else (.halted, w)
+  qPop := Gen.M.halt
+  bufferSize := Gen.M.halt
+  bufferErase _ := Gen.M.halt
+  promiseSetValue := Gen.M.halt
+  promiseSetException := Gen.M.halt
+  sockSendSome _ := Gen.M.halt
+  sockSendTo _ := Gen.M.halt
+  sockDriverPending := Gen.M.halt
+  qEmplace w := if w.held then (.ok (), { w with s := step w.s (.enq w.t w.id w.bytes) }) else (.halted, w)
+  lock w := if w.held then (.halted, w) else (.ok (), { w with held := true })
+  unlock w := if w.held then (.ok (), { w with held := false }) else (.halted, w)
+  driverLock w := (.ok true, w)
+  driverAsyncWantSend w := if w.held then (.halted, w) else (.ok (), { w with s := step w.s (.arm w.t) })
+
+section
+open AsyncQ
+theorem e_qEmpty (w : EnqSt) : enqWorld.qEmpty w = if w.held then (.ok w.s.q.isEmpty, w) else (.halted, w) := rfl
+theorem e_qEmplace (w : EnqSt) : enqWorld.qEmplace w =
+    if w.held then (.ok (), { w with s := step w.s (.enq w.t w.id w.bytes) }) else (.halted, w) := rfl
+theorem e_lock (w : EnqSt) : enqWorld.lock w = if w.held then (.halted, w) else (.ok (), { w with held := true }) := rfl
+theorem e_unlock (w : EnqSt) : enqWorld.unlock w = if w.held then (.ok (), { w with held := false }) else (.halted, w) := rfl
+theorem e_driverLock (w : EnqSt) : enqWorld.driverLock w = (.ok true, w) := rfl
+theorem e_driverAsyncWantSend (w : EnqSt) : enqWorld.driverAsyncWantSend w =
+    if w.held then (.halted, w) else (.ok (), { w with s := step w.s (.arm w.t) }) := rfl
+end
 
 section
 open Udp AsyncQ
